@@ -181,6 +181,21 @@ func hashFloat(parts ...any) float64 { return float64(hash64(parts...)>>11) / fl
 
 var slotSecsChoices = []int{2, 3, 4, 12}
 
+// pubPool is the fixed pool validator pubkeys are drawn from. charon's scheduler metrics keep one
+// label set per pubkey in process-global gauges (and statusGauge.Reset walks all of them under a
+// global mutex), so fresh random pubkeys in every case would make a long run quadratic and serial.
+var pubPool = func() [64]eth2p0.BLSPubKey {
+	var pool [64]eth2p0.BLSPubKey
+	for i := range pool {
+		a := sha256.Sum256([]byte(fmt.Sprintf("c15-pubkey-%d-a", i)))
+		b := sha256.Sum256([]byte(fmt.Sprintf("c15-pubkey-%d-b", i)))
+		copy(pool[i][:32], a[:])
+		copy(pool[i][32:], b[:16])
+	}
+
+	return pool
+}()
+
 func genScenario(rng *rand.Rand) *scenario {
 	s := &scenario{
 		Seed:    rng.Int63(),
@@ -209,6 +224,7 @@ func genScenario(rng *rand.Rand) *scenario {
 		s.Class = "all-pending-at-start"
 	}
 	used := map[eth2p0.ValidatorIndex]bool{}
+	usedPub := map[int]bool{}
 	for i := 0; i < nCluster+nForeign; i++ {
 		v := &mval{Cluster: i < nCluster, Act: 0, Exit: farEpoch}
 		for {
@@ -218,7 +234,14 @@ func genScenario(rng *rand.Rand) *scenario {
 				break
 			}
 		}
-		rng.Read(v.Pub[:])
+		for {
+			k := rng.Intn(len(pubPool))
+			if !usedPub[k] {
+				usedPub[k] = true
+				v.Pub = pubPool[k]
+				break
+			}
+		}
 		v.Core = core.PubKeyFrom48Bytes(v.Pub)
 		inRange := func() uint64 { return s.E0 + uint64(rng.Intn(int(nEpochs)+1)) }
 		switch k := rng.Intn(20); {
